@@ -941,9 +941,19 @@ private:
     {
       if (opcode == WsOpcode::TEXT)
       {
+        // RFC 6455 Section 8.1: a text message that is not valid UTF-8 fails the
+        // connection (1007); it is never handed to the text callback. Checked on
+        // the reassembled message, like WebSocketServer does.
+        WebSocketFrame whole;
+        whole.payload = std::move(payload);
+        if (!whole.isValidUtf8())
+        {
+          failConnection(1007, "Invalid UTF-8", "Received text message with invalid UTF-8");
+          return;
+        }
         if (_onTextMessage)
         {
-          std::string text(payload.begin(), payload.end());
+          std::string text(whole.payload.begin(), whole.payload.end());
           _onTextMessage(text);
         }
       }
